@@ -258,13 +258,19 @@ PROPERTIES = {
                  "(no 'away from the wrap' precondition); packets_lost == clamp24(extended highest - base + 1 - received); "
                  "fraction_lost is the A.3 formula over the interval and always fits 8 bits; jitter follows the A.8 "
                  "recurrence with differences modulo 2^32 and always fits 32 bits; plus the wire layer "
-                 "(clamp/pack/unpack 24-bit loss, RtcpReceiverInfo.__bytes__ for all in-range figures).",
-        "note": "The report-construction loop in RTCRtpReceiver._run_rtcp (async, private dict state) is not under "
-                "contract, so F-20 (highest_sequence sent without wrap cycles) is not decided by this check. time.time() "
-                "is an unconstrained real; int() of it is floor.",
+                 "(clamp/pack/unpack 24-bit loss, RtcpReceiverInfo.__bytes__ for all in-range figures), the receiver-report "
+                 "packet (RtcpRrPacket serialise/parse/round trip for up to 31 reports), and the report loop "
+                 "RTCRtpReceiver._run_rtcp: every report carries the stream's SSRC and cycles + max_seq as extended highest "
+                 "sequence number, every field is in its wire range, and building and sending the report raises nothing "
+                 "(cancellation at the sleep is the only exit).",
+        "note": "_run_rtcp is verified under the stated receiver invariant (at most 31 remote streams, each with at least one "
+                "packet and fewer than 65535 sequence wraps, LSR values 32-bit), which the RTP/RTCP handlers that establish it "
+                "are not proved to maintain. The loop is a service loop: no variant. time.time() is an unconstrained real; "
+                "random.random() is in [0, 1); asyncio.sleep may raise CancelledError. F-20 found here and fixed.",
         "design_ref": "DESIGN.md 4.18, 9",
         "trusted_base": COMMON,
-        "not_decided": ["report construction loop in RTCRtpReceiver._run_rtcp (F-20)"],
+        "not_decided": ["that _handle_rtp_packet/_handle_rtcp_packet maintain the receiver invariant _run_rtcp assumes",
+                        "more than 31 remote streams in one receiver (the RR count field has 5 bits)"],
     },
 }
 
